@@ -209,8 +209,11 @@ def check_script(ctx, sc):
         # ---- comparisons --------------------------------------------------
         for left, op, right in st.comps:
             ok_kinds = ('col', 'num', 'str', 'call', 'paren', 'subq',
-                        'operation', 'typed', 'cast', 'null', 'placeholder',
-                        'typed-tz')
+                        'operation', 'typed', 'cast', 'null', 'placeholder')
+            # (an operand followed by AT TIME ZONE - kinds 'tz', 'typed-tz' -
+            # is not judged here: whether the cast belongs to the operand is
+            # not fixed by the property; the typed-literal oracle below still
+            # requires the TypedLiteral node)
             if left[2] not in ok_kinds or right[2] not in ok_kinds:
                 rec.count('comparisons_outside_declared_operand_classes')
                 continue
